@@ -193,7 +193,8 @@ func checkRoundTrip(c *ValCase, ctx *Ctx, cfg *configuration.Configuration) erro
 	}
 	if hasYearZero(c.Val) {
 		// Go's year 0 (1 BC) has no counterpart in the format: the only acceptable outcome is an error from
-		// the marshaler (the generators never draw such a time; this branch serves the stored regression input)
+		// the marshaler
+		ctx.Label("a time in year 0 (must be refused, or written as something that reads back)")
 		if err == nil {
 			if _, uerr, _ := unmarshalDoc(ctx, c.Format, doc, reflect.Zero(c.Type.Realize()).Interface(), cfg); uerr != nil {
 				return fmt.Errorf("a time in year 0 was marshaled without an error into a document that does not unmarshal: %v\ndoc=%s", uerr, docdump(c.Format, doc))
@@ -234,10 +235,41 @@ func init() {
 		Gen: func(t *rapid.T, ctx *Ctx) interface{} {
 			o := valOpts(ctx)
 			avoidVal(o, "S4-edge-iterator-no-end", "S47-platform-int-and-bool-arrays-unbuildable", "S48-null-into-map", "S28-fixed-zone-offset-lost")
-			return genValCase(t, ctx, o)
+			o.YearZero = true
+			records := rapid.IntRange(0, 3).Draw(t, "records") == 0
+			o.FieldsAlwaysWritten = records
+			c := genValCase(t, ctx, o)
+			if records {
+				// a value with at least one struct type in it (a few redraws; otherwise the case runs without records)
+				for tries := 0; tries < 6; tries++ {
+					var structs []*gen.TypeSpec
+					if findStructs(c.Type, &structs); len(structs) > 0 {
+						break
+					}
+					c = genValCase(t, ctx, o)
+				}
+				c.Cfg = "records"
+			}
+			return c
 		},
 		Check: func(ci interface{}, ctx *Ctx) error {
-			return checkRoundTrip(ci.(*ValCase), ctx, newCfg())
+			c := ci.(*ValCase)
+			cfg := newCfg()
+			if c.Cfg == "records" {
+				// up to three of the struct types in the value are registered as record types: written as
+				// @name<keys> + @name{values}, read back through the record builder
+				var structs []*gen.TypeSpec
+				findStructs(c.Type, &structs)
+				seen := map[reflect.Type]bool{}
+				for i, st := range structs {
+					if rt := st.Realize(); !seen[rt] && len(seen) < 3 {
+						seen[rt] = true
+						cfg.Iterator.RecordTypes[rt] = fmt.Sprintf("rec%d", i)
+					}
+				}
+				ctx.LabelIf(len(seen) > 0, "struct types registered as record types")
+			}
+			return checkRoundTrip(c, ctx, cfg)
 		},
 	})
 }
